@@ -27,6 +27,15 @@ UNITS = [
                  "OP token by 2-8 alternatives) of the base meta-model of native/c06.py and of the 120 recorded "
                  "meta-models under dev/test_data (< 6 kB each): ~39 000 mutants through run.load_model; exhaustive "
                  "for that edit set", args={"with_recorded": True}, timeout_s=1800),
+    # C02 as a whole: the generators are tens of thousands of lines of text emission of which a few functions are under
+    # contract.  The sweep is the bounded evidence for the rest; it found 10 generator crashes on the pinned tree: 5
+    # repaired, 5 recorded as open findings (unimplemented features and front-end gaps reported by assertion).
+    Native("accepted meta-models never make a generator raise", ["C02"], "native.c02:sweep", kind="bounded",
+           bound="all eight targets on: two base meta-models (optional list of primitives / of classes) and every 4th "
+                 "(thorough: every) single-edit mutant of them that the front end accepts, every hierarchy of <= 3 classes "
+                 "of native/c05.py, the small recorded common meta-models (~1 700 / ~3 450 meta-models x 8 targets); a "
+                 "generator may report errors but must not raise",
+           args={"stride": 4}, thorough_args={"stride": 1}, timeout_s=3000),
     Native("every small structured flow against its linearization", ["C26"], "native.c26:bounded", kind="bounded",
            bound="every flow of <= 4 (thorough: 5) nodes, nesting <= 3, over Command / Yield / IfTrue / IfFalse (with, "
                  "without and with empty else) / For (with, without init) / While (bodies may be empty) x all 2^5 "
